@@ -144,10 +144,10 @@ class Check:
                 if rep is not None and rep[0] is False:
                     # counterexample does not reproduce natively: engine/model defect, never a violation
                     status = max(status, 2); r['notes'].append('non-reproducing counterexample: %r' % (v,))
-                    print('[%s] %s: counterexample not reproduced natively (%s): %s' % (s.pid, r['name'], rep[1], json.dumps({k: x for k, x in v.items() if k not in ('native', 'spec')}, default=str)[:600])); continue
+                    print('[%s] %s: counterexample not reproduced natively (%s): %s' % (s.pid, r['name'], rep[1], json.dumps({k: x for k, x in v.items() if k not in ('native', 'spec')}, default=str)[:int(os.environ.get("VERIF_SHOW", "600"))])); continue
                 if rep is not None and rep[0] is None:
                     status = max(status, 2); r['notes'].append('replay failed: %r' % (rep,))
-                    print('[%s] %s: replay inconclusive (%s): %s' % (s.pid, r['name'], rep[1], json.dumps({k: x for k, x in v.items() if k not in ('native', 'spec')}, default=str)[:600])); continue
+                    print('[%s] %s: replay inconclusive (%s): %s' % (s.pid, r['name'], rep[1], json.dumps({k: x for k, x in v.items() if k not in ('native', 'spec')}, default=str)[:int(os.environ.get("VERIF_SHOW", "600"))])); continue
                 cls = classify_known(known, v)
                 if cls is not None:
                     known_lines.append('KNOWN-FINDING: property=%s %s' % (s.pid, cls['what']))
